@@ -8,6 +8,14 @@ CHECKS = {
              text="TLC proves the window/finalisation/gating invariants on the finite-state Activation model for histories of every length; every behaviour of the model with N server steps plus random long walks is replayed into the real RdpClient with an input attempt of every kind after every step, and each recorded run must be a behaviour of the same model (state, decoded client PDUs, callbacks, results bound at every event). A binding self-test corrupts accepted traces and requires rejection.",
              note="Trusted: TLC, the harness's scripted stream and event logging, hook verif_state (read-only accessor). Server PDUs are well-formed (hostile bytes are C06); result of a read that ignores a PDU is left free.",
              ref="DESIGN.md section 6 C12"),
+ "C11": dict(cat="model_checking", tech="TLA+ spec Activation.tla (Input action) model-checked by TLC + trace validation of every recorded write/try_write call, input PDUs decoded by WireClient.tla",
+             text="Every recorded input call must be an Input step of the model: inside the window exactly one input PDU whose decoded event (type, flags, coordinates/scancode) equals the submission, outside it or for unsendable kinds an error/drop and no bytes. Plans: every behaviour of Gen_Input (TLC) over buttons x press states x keys x strict/lenient write interleaved with server letters, random walks, and sweeps of x, y, scancode (boundaries+sample quick, all 65536 thorough). Per-call attribution of bytes gives order and exactly-once.",
+             note="Trusted: TLC, WireClient.tla (my transcription of MS-RDPBCGR input PDU), harness attribution of writes to calls. MOVE vs MOVE|DOWN for a button-less down event is left free.",
+             ref="DESIGN.md section 6 C11"),
+ "C10": dict(cat="model_checking", tech="TLA+ spec Activation.tla (fast-path disjunct) + WireServer.tla reference parser; TLC-enumerated PDU shapes replayed into RdpClient::read; trace validation cbs' = rectangles decoded from the server bytes",
+             text="TLC enumerates every fast-path PDU shape (0..3/4 updates, bitmap updates with 0..3 rectangles mixed with other update kinds, both length forms); the harness concretises fields and data lengths; the expected callbacks are derived by the TLA+ server grammar from the bytes actually sent and must equal the recorded callbacks one to one, in order, field by field, data byte by data byte.",
+             note="Trusted: TLC, WireServer.tla (transcription of MS-RDPBCGR 2.2.9.1.2), reference encoder only for producing bytes (re-decoded by the spec). Conformant, uncompressed, unfragmented updates only.",
+             ref="DESIGN.md section 6 C10"),
 }
 
 NOT_YET = {
